@@ -90,6 +90,46 @@ func runC15(p *Prog, r *Report) {
 	c15Reference(p, r)
 	c15Omissions(p, r)
 	c15Supplier(p, r)
+	c15WriterTruncates(p, r)
+}
+
+// c15WriterTruncates: the SBOM writers replace an existing output file: os.Create, or os.OpenFile
+// whose constant flags contain O_TRUNC (or O_EXCL). Without truncation a shorter document written over
+// a longer one leaves the tail of the old document behind and the file no longer parses.
+func c15WriterTruncates(p *Prog, r *Report) {
+	n := 0
+	for _, x := range []struct{ rel, name string }{{"binary/spdx", "Write23"}, {"binary/cdx", "Write"}} {
+		fn := p.Func(x.rel, x.name)
+		if fn == nil {
+			r.Undecided("D2-format-family", "anchor:"+x.rel+"."+x.name, "-", "not found")
+			continue
+		}
+		opened := false
+		forEachInstr(fn, func(_ *ssa.BasicBlock, _ int, in ssa.Instruction) {
+			c, ok := in.(*ssa.Call)
+			if !ok {
+				return
+			}
+			rf := refOf(c.Common())
+			site := x.rel + "." + x.name + ":open"
+			switch {
+			case rf.is("os", "", "Create"):
+				opened = true
+				n++
+				r.OK("D2-format-family", site, p.Pos(c.Pos()), "os.Create truncates")
+			case rf.is("os", "", "OpenFile"):
+				opened = true
+				n++
+				fl, isK := constInt(c.Call.Args[1])
+				ok2 := isK && (fl&int64(os.O_TRUNC) != 0 || fl&int64(os.O_EXCL) != 0)
+				r.Check(ok2, "D2-format-family", site, p.Pos(c.Pos()), "opened with O_TRUNC / O_EXCL", "the SBOM output file is opened without O_TRUNC: exporting a smaller inventory to a path that already holds a larger export leaves the old tail in the file, which the importer then rejects")
+			}
+		})
+		if !opened {
+			r.Undecided("D2-format-family", x.rel+"."+x.name+":open", p.Pos(fn.Pos()), "the writer does not open its output with os.Create / os.OpenFile")
+		}
+	}
+	r.Instances("D2-format-family", "SBOM output files opened", n, 2)
 }
 
 // extPkgOfFunc: import path of the package a function value (possibly external, body-less) belongs to.
